@@ -266,6 +266,16 @@ def r07c(ctx):
                     if 'self' in e.owners and e.kind == 'setattr':
                         fwd_written.add(e.name)
         effs = [e for e in E.closure(init) if e.owners & {model_atom, 'g:' + model_atom}]
+        # ... and what the constructor does, after the conversion, to the objects it keeps
+        # (self.seed, the leaf lists): the layers of the seed are the caller's own objects
+        # (SuperNet blocks, user-placed PIT layers), so a store on a sub-object of the wrapper
+        # (root d:self) is a store on the caller's model too
+        setters = {n for c in repo.classes.values() for n in c.setters}
+        sub = [e for e in E.closure(init) if any(r.startswith('d:self') for r in e.roots) and
+               e.kind in ('setattr', 'setitem', 'update', 'inplace', 'struct') and
+               not (e.kind == 'setattr' and e.name.strip("'") in setters)]
+        ctx.count(f'R07c:{wname} constructor effects on kept layers', len(sub))
+        effs += [e for e in sub if e not in effs]
         ctx.count(f'R07c:{wname} effects on the caller model', len(effs))
         seen = set()
         for e in effs:
